@@ -27,7 +27,7 @@ RULE = ("plans = forest x peer schedules x batching x locks x callbacks x set-sl
 FAULT_KINDS = ["duplicate", "duplicate_of_locked", "duplicate_in_batch", "child_before_parent",
                "orphan_never_resolved", "reordered_batch", "partition_heal_burst", "fork_below_lock",
                "empty_batch", "retransmit", "stale_branch_after_lock", "crash_restart", "peer_disconnect_mid_batch", "lock_persist_error"]
-PROBES = ["reorg", "deep_reorg>=3", "tie", "orphan_adopted", "adopt_parent_and_sibling_same_batch",
+PROBES = ["two_instances_own_weights", "reorg", "deep_reorg>=3", "tie", "orphan_adopted", "adopt_parent_and_sibling_same_batch",
           "lock", "lock_full_length", "lock_noop", "delivery_after_lock", "callback_delivered",
           "callback_dropped", "two_instances", "slot_collision", "weight_zero_header", "lock_raised", "judged_bookkeeping_only_while_uncertain"]
 
@@ -289,8 +289,14 @@ def gen_plan(rng, tier, index, config=None):
     sent = []
     bcs = ["bc0"] + (["bc1"] if config == "A2-two-instances" else [])
     steps = []
+    # two trackers in one process that share nothing (own storage): the second is told other weights for the same hashes,
+    # so whatever one of them remembers per hash must not reach the other
+    own_weights = None
+    if config == "A2-two-instances" and r.chance(0.4):
+        own_weights = {lab: (w + r.between(1, 9) if r.chance(0.7) else max(0, w - r.between(1, 3)))
+                       for lab, _, w in nodes if r.chance(0.6)}
     for b in bcs:
-        steps.append({"op": "new", "bc": b, "shared": (config == "A2-two-instances") or r.chance(0.1)})
+        steps.append({"op": "new", "bc": b, "shared": ((config == "A2-two-instances") or r.chance(0.1)) and own_weights is None})
     ncb = 0
     if r.chance(0.35):
         for _ in range(r.between(1, 3)):
@@ -372,9 +378,10 @@ def gen_plan(rng, tier, index, config=None):
     # every run ends with a delivery so that post-lock discrepancies become visible
     for b in bcs:
         steps.append({"op": "deliver", "bc": b, "batch": [], "t": 1e6 + 1, "tags": ["final"]})
-    return {"world": NAME, "config": {"name": config, "slots": slots, "slot_mode": slot_mode, "anchor": "A",
-                                      "peers": npeers},
-            "steps": steps}
+    cfg_out = {"name": config, "slots": slots, "slot_mode": slot_mode, "anchor": "A", "peers": npeers}
+    if own_weights:
+        cfg_out["w_bc1"] = own_weights
+    return {"world": NAME, "config": cfg_out, "steps": steps}
 
 
 # ---------------------------------------------------------------------------------------------
@@ -508,6 +515,7 @@ def execute(plan, ctx):
     ids = _Ids(cfg, _collect_headers(plan))
     anchor_label = cfg.get("anchor", "A")
     insts = {}
+    ids_bc1 = None
     cb_owner = {}
     if len(set(cfg.get("slots", {}).values())) < len(cfg.get("slots", {})):
         ctx.probe("slot_collision")
@@ -549,7 +557,19 @@ def execute(plan, ctx):
             t = st.get("t", 0.0)
             if t < 1e5:
                 ctx.vtime = max(ctx.vtime, t)
-            _deliver(ctx, ids, inst, st)
+            wmap = cfg.get("w_bc1") if st.get("bc") == "bc1" and not ids.block_mode and not inst.shared else None
+            if wmap:
+                # this tracker is told its own weights for the same hashes (same id objects, other SimHeader weights)
+                if "bc0" in insts:
+                    ctx.probe("two_instances_own_weights")
+                if ids_bc1 is None:
+                    import copy as _copy_mod
+                    ids_bc1 = _copy_mod.copy(ids)
+                    ids_bc1.info = {lab: (p, wmap.get(lab, w)) for lab, (p, w) in ids.info.items()}
+                st = dict(st, batch=[[lab, p, wmap.get(lab, w)] for lab, p, w in st["batch"]])
+                _deliver(ctx, ids_bc1, inst, st)
+            else:
+                _deliver(ctx, ids, inst, st)
         elif op == "lock":
             _lock(ctx, ids, inst, st)
         elif op == "restart":
